@@ -350,9 +350,28 @@ def check_policy(run, case):
     ctx = common.child(common.std_context(delegates=False))
     ctx['$o'] = obj
     kw = case.get('kwarg')
-    text = {'attr': '$o.%s' % name,
-            'method': '$o.%s(%s)' % (name, '%s => 5' % kw if kw else ''),
-            'index': "$o['%s']" % name}[form]
+    recv = '$o'
+    via = s.get('via_parent')
+    if via and s.get('on_class'):
+        # the object is handed out by another yaqlized object whose results
+        # are auto-yaqlized; the class's own settings must keep governing it
+        class Parent:
+            def __init__(self, kid):
+                self.kid = kid
+
+            def child(self):
+                return self.kid
+
+            def __getitem__(self, key):
+                return self.kid
+        ctx['$p'] = yaqlization.yaqlize(Parent(obj),
+                                        auto_yaqlize_result=True)
+        recv = {'method': '$p.child()', 'attr': '$p.kid',
+                'index': "$p['kid']"}[via]
+    text = {'attr': '%s.%s' % (recv, name),
+            'method': '%s.%s(%s)' % (recv, name,
+                                     '%s => 5' % kw if kw else ''),
+            'index': "%s['%s']" % (recv, name)}[form]
     del Probe.touched[:]
     try:
         out = ('ok', _engine()(text).evaluate(context=ctx))
@@ -426,6 +445,8 @@ def policy_cases(draw):
          'black': draw(st.lists(st.sampled_from(sorted(ENTRY_POOL)),
                                 max_size=2, unique=True)),
          'remap': [], 'on_class': draw(st.booleans()),
+         'via_parent': draw(st.sampled_from([None, None, 'method', 'attr',
+                                             'index'])),
          'blacklist_remapped': draw(st.sampled_from([True, True, False]))}
     if draw(st.integers(0, 2)) == 0:
         s['white'] = []
